@@ -16,6 +16,21 @@ from pyvc.values import Int, Bool, Str, Opt, SeqOf, ObjOf, Obj, SymSet, RefSort,
 from pyvc.speclib import AND, OR, NOT, IMPLIES, IFF, ITE, EQ, IS_NONE, VAL, ISINST, AS, smt
 from pyvc import speclib
 from pyvc import settheory as st
+from pyvc import libmodel as _libmodel
+
+
+def _bi_unicodedata_normalize(self, ctx, form, s):
+    """unicodedata.normalize('NFC', s): a total uninterpreted function of the string (the same assumed contract as in
+    pyvc/ext_expr.py; installed here on its own because that module also re-models range / set / int for the parser code)"""
+    from pyvc.values import EngineLimit
+    if form != "NFC":
+        raise EngineLimit("unicodedata.normalize form %r" % (form,))
+    return z3.Function("str!nfc", z3.StringSort(), z3.StringSort())(Str.unwrap(s))
+
+
+if not hasattr(_libmodel.Lib, "bi_unicodedata_normalize"):
+    _libmodel.Lib.bi_unicodedata_normalize = _bi_unicodedata_normalize
+    _libmodel.ASSUMED["unicodedata.normalize"] = "unicodedata.normalize('NFC', s) is a total uninterpreted function nfc(s) of the string"
 from pyvc.settheory import modset, SETEQ, SMIN, SMAX, WFSET
 from . import c01
 from .c01 import D, DVAL, BLS, OPERATOR
@@ -731,7 +746,7 @@ def _gen_value(rng):
     if k == "rat":
         return ["rat", rng.choice([0, 1, 1, 2, -3]), rng.choice([1, 1, 2])]
     if k == "str":
-        return ["str", rng.choice(["", "a", "b", "1"])]
+        return ["str", rng.choice(["", "a", "b", "1", "\u00e9", "e\u0301", "\u00e9"])]  # incl. two spellings of one NFC string
     return ["set", sorted(rng.sample([0, 1, 2, 3], rng.choice([1, 2])))]
 
 
@@ -852,3 +867,16 @@ def extra_pickle_round_trip(eng, tier, seed):
 
 
 EXTRA_CHECKS = list(globals().get("EXTRA_CHECKS", [])) + [extra_pickle_round_trip]
+
+
+# ------------------------------------------------------------------------------------------------ operator layer: queries leave operands alone
+# "Immutable values": an analytic query on a bit length set (min / max / residues / expansion, which is what __eq__ and
+# __hash__ are made of) must not change what any operand denotes - in particular not through the sets handed out by the
+# memo cache of a MemoizationOperator.  The contracts are those of specs/c01.py (result against the ghost set D, frame:
+# only memo fields are written, in-place mutation only of collections the method itself allocated); they are re-verified
+# in this property's run so that a change which corrupts an operand's cached answers is reported under C18 as well.
+for _cls18 in (c01.NULLARY, c01.PADDING, c01.CONCAT, c01.REPEAT, c01.RANGE, c01.UNION, c01.MEMO):
+    for _m18 in ("modulo", "min", "max", "expand"):
+        _c18 = REG.contracts.get(_cls18 + "." + _m18)
+        if _c18 is not None and "C18" not in _c18.props:
+            _c18.props.append("C18")
